@@ -115,6 +115,10 @@ class SetWorld(object):
 
     def ensure_intersection(self, out, a, b, allowed, label="result"):
         vc = self.vc
+        if out.raised(AttributeError) and ("object has no attribute" in str(out.value)) and any(a in str(out.value) for a in ("'x'", "'y'", "'z'", "'sv'", "'dv'", "'n'", "'p'", "'points'", "'vector'", "'_v'")):
+            # the handler looked at coordinates: it is no longer a pure composition of its callees, which this world cannot follow
+            vc.undecided("%s: decided in the SET world" % label, "the handler reads coordinates of its (opaque) operands: %s" % out.value)
+            return
         vc.ensure("%s: does not raise" % label, out.returned)
         if not out.returned:
             vc.note("raised %r" % (out.value,))
